@@ -55,6 +55,26 @@ def need(pattern, text, what, flags=re.S):
         return None
     return m
 
+def const_eval(text, expr, depth=0):
+    expr = expr.strip()
+    if depth > 8:
+        return None
+    if re.fullmatch(r"0[xX][0-9A-Fa-f_]+|[0-9_]+", expr):
+        return num(expr)
+    mm = re.fullmatch(r"(?:u16|u32)::from_le_bytes\(\s*\[(.+?),(.+?)\]\s*\)", expr, re.S)
+    if mm:
+        a, b = const_eval(text, mm.group(1), depth + 1), const_eval(text, mm.group(2), depth + 1)
+        return None if a is None or b is None else a + 256 * b
+    mm = re.fullmatch(r'(?:u16|u32)::from_le_bytes\(\s*\*b"(..)"\s*\)', expr, re.S)
+    if mm:
+        return ord(mm.group(1)[0]) + 256 * ord(mm.group(1)[1])
+    mm = re.fullmatch(r"[A-Za-z_][A-Za-z0-9_]*", expr)
+    if mm:
+        d = re.search(r"\bconst\s+" + expr + r"\s*:\s*\w+\s*=\s*(.+?);", text, re.S)
+        return const_eval(text, d.group(1), depth + 1) if d else None
+    return None
+
+
 def const_num(text, name, what=None):
     m = need(r"\bconst\s+" + name + r"\s*:\s*\w+\s*=\s*([0-9a-fA-Fx_]+)\s*;", text, what or name)
     return num(m.group(1)) if m else 0
@@ -266,25 +286,6 @@ ZIP_SIG = const_num(sd, "ZIP_LOCAL_FILE_HEADER_SIGNATURE")
 # literal or a named constant; named constants are evaluated (literals, other constants,
 # `u16::from_le_bytes([a, b])`, `u16::from_le_bytes(*b"XY")`). The arms are disjoint, so their textual
 # order is irrelevant: the table is emitted sorted by (kind, level, value) in the order the theorems use.
-def const_eval(text, expr, depth=0):
-    expr = expr.strip()
-    if depth > 8:
-        return None
-    if re.fullmatch(r"0[xX][0-9A-Fa-f_]+|[0-9_]+", expr):
-        return num(expr)
-    mm = re.fullmatch(r"(?:u16|u32)::from_le_bytes\(\s*\[(.+?),(.+?)\]\s*\)", expr, re.S)
-    if mm:
-        a, b = const_eval(text, mm.group(1), depth + 1), const_eval(text, mm.group(2), depth + 1)
-        return None if a is None or b is None else a + 256 * b
-    mm = re.fullmatch(r'(?:u16|u32)::from_le_bytes\(\s*\*b"(..)"\s*\)', expr, re.S)
-    if mm:
-        return ord(mm.group(1)[0]) + 256 * ord(mm.group(1)[1])
-    mm = re.fullmatch(r"[A-Za-z_][A-Za-z0-9_]*", expr)
-    if mm:
-        d = re.search(r"\bconst\s+" + expr + r"\s*:\s*\w+\s*=\s*(.+?);", text, re.S)
-        return const_eval(text, d.group(1), depth + 1) if d else None
-    return None
-
 sigs = []
 for mm in re.finditer(r"(0x[0-9A-Fa-f]{4}|[A-Z][A-Z0-9_]*)\s*=>\s*(?:Some\(\s*)?Signature::(\w+)(?:\((\d+)\))?", sd):
     v = const_eval(sd, mm.group(1))
@@ -314,8 +315,12 @@ m = need(r"\(\(hash \^ \(hash >> (\d+)\)\) & u32::from\(MINIZ_LEVEL1_HASH_SIZE_M
 MINIZ_SHIFT = num(m.group(1)) if m else 0
 hc = strip_comments(src("hash_chain.rs"))
 MAX_BATCH = const_num(hc, "MAX_UPDATE_HASH_BATCH")
-deltas = sorted(set(num(x) for x in re.findall(r"const DELTA: usize = (0x[0-9a-fA-F]+);", hc)))
-limits = sorted(set(num(x) for x in re.findall(r"pos as i32 - self\.total_shift >= (0x[0-9a-fA-F]+)", hc)))
+# reshift constants, whatever they are called: the generic argument of every `reshift::<X>()` call and
+# the right-hand side of every `pos as i32 - [self.]total_shift >= X` test, evaluated
+deltas = sorted(set(v for v in (const_eval(hc, x) for x in re.findall(r"reshift::<\s*(\w+)\s*>\s*\(", hc)) if v is not None))
+limits = sorted(set(v for v in (const_eval(hc, x) for x in re.findall(r"pos as i32 - (?:self\.)?total_shift >= (0x[0-9a-fA-F]+|\w+)", hc)) if v is not None))
+if not deltas or not limits:
+    failures.append("not found: reshift constants")
 shifts = sorted(set(int(x) for x in re.findall(r"total_shift: (-?\d+),", hc)))
 
 GROUP[0] = "levels"
